@@ -13,6 +13,7 @@ import (
 	"fmt"
 	"io"
 	"reflect"
+	"runtime"
 	"runtime/debug"
 	"sync"
 	"sync/atomic"
@@ -55,7 +56,15 @@ type Sched struct {
 	Preempts int
 	finished chan struct{}
 	aborting bool
+	Trace    []string
+	progress map[int]int // per thread: number of operations performed
+	total    int
 }
+
+func (s *Sched) othersProgress(id int) int { return s.total - s.progress[id] }
+
+// TraceOn makes schedulers record every performed operation (for replaying one schedule with an explanation).
+var TraceOn bool
 
 var active atomic.Pointer[Sched]
 
@@ -70,12 +79,13 @@ type Result struct {
 	Steps    int
 	Preempts int
 	Threads  int
+	Trace    []string
 }
 
 // Run executes main as thread 0 under a new scheduler and returns when every thread has finished, or a deadlock
 // or the step horizon was reached (remaining threads are then aborted).
 func Run(choose Chooser, horizon int, main func()) Result {
-	s := &Sched{choose: choose, horizon: horizon, finished: make(chan struct{})}
+	s := &Sched{choose: choose, horizon: horizon, finished: make(chan struct{}), progress: map[int]int{}}
 	if !active.CompareAndSwap(nil, s) {
 		panic("vsync: nested Run")
 	}
@@ -85,7 +95,7 @@ func Run(choose Chooser, horizon int, main func()) Result {
 	t.wake <- struct{}{}
 	<-s.finished
 	active.Store(nil)
-	return Result{Deadlock: s.Deadlock, Livelock: s.Livelock, Blocked: s.Blocked, Panics: s.Panics, Steps: s.steps, Preempts: s.Preempts, Threads: len(s.threads)}
+	return Result{Deadlock: s.Deadlock, Livelock: s.Livelock, Blocked: s.Blocked, Panics: s.Panics, Steps: s.steps, Preempts: s.Preempts, Threads: len(s.threads), Trace: s.Trace}
 }
 
 func (s *Sched) newThread(name string) *thread {
@@ -186,6 +196,11 @@ func (s *Sched) dispatch(self *thread) {
 	o := next.pending
 	next.pending = nil
 	s.cur = next
+	s.progress[next.id]++
+	s.total++
+	if TraceOn {
+		s.Trace = append(s.Trace, fmt.Sprintf("t%d(%s): %s [enabled %d]", next.id, next.name, o.kind, len(enabled)))
+	}
 	o.perform()
 	if next == self {
 		return
@@ -230,6 +245,20 @@ func Yield() {
 	if s := cur(); s != nil {
 		s.point(&op{kind: "yield", enabled: func() bool { return true }, perform: func() {}})
 	}
+}
+
+// Pause blocks the calling thread until some other thread has performed a step (the model of "wait until
+// something changes": a poll loop calls it instead of spinning, so that waiting is visible to the scheduler and a
+// poller whose peers are all blocked is reported as a deadlock).
+func Pause() {
+	s := cur()
+	if s == nil {
+		runtime.Gosched()
+		return
+	}
+	me := s.cur
+	mark := s.othersProgress(me.id)
+	s.point(&op{kind: "pause (poll)", enabled: func() bool { return s.othersProgress(me.id) > mark }, perform: func() {}})
 }
 
 // Go starts f as a new thread.
